@@ -98,11 +98,15 @@ def make_evaluators(rc_values=None, fc_rule=None, packages=None, from_data=False
     class GatedHints(HintsProvider):
         async def get_hint_text(self, condition_key):
             tag = ""
+            body = None
             if G.tag_data:
                 import inject
                 from ahbicht.content_evaluation.evaluationdatatypes import EvaluatableDataProvider
-                tag = f"@{data_id(inject.instance(EvaluatableDataProvider).body)}"
+                body = inject.instance(EvaluatableDataProvider).body
+                tag = f"@{data_id(body)}"
             await G.gate(f"hint:{condition_key}{tag}")
+            if from_data and isinstance(body, dict) and (body.get("hints") or {}).get(str(condition_key)):
+                return body["hints"][str(condition_key)]         # the hint text belongs to the data of THIS evaluation
             return f"H{condition_key}"
 
     class GatedPackages(PackageResolver):
